@@ -119,13 +119,28 @@ def generate(tier, rng):
         stream = b''.join(x[1] for x in items)
         script = ''.join(LET[x[0]] for x in items)
         tail = rng.choice([b'', b'PAYLOAD', rbytes(rng, 5000)])
-        for kind in ('bytes', 'plain', 'one', 'limited'):
+        for kind in ('bytes', 'buffer', 'plain', 'one', 'limited'):
             yield f'cbor.dec.seq {kind} {script} {hexs(stream + tail)}'
             k = rng.randrange(len(script) + 1)
             yield f'cbor.dec.seq {kind} {script[:k] + rng.choice("ubtam") + script[k:]} {hexs(stream + tail)}'      # one extra / mistyped call
             yield f'cbor.dec.seq {kind} {script}{rng.choice("ubtam")} {hexs(stream)}'                                 # a call at end of input
             if stream: yield f'cbor.dec.seq {kind} {script} {hexs(stream[:rng.randrange(len(stream))])}'             # truncated
-    for kind in ('bytes', 'plain', 'one', 'limited'):
+    # strings whose declared length exceeds what is left, through every reader kind (a fast path must not return a short string)
+    for kind in ('bytes', 'buffer', 'plain', 'one', 'limited'):
+        for mt, c in ((2, 'b'), (3, 't')):
+            for declared, present in ((5, 3), (1, 0), (24, 23), (256, 0), (256, 255), (65536, 10), (2**32, 4), (2**63 - 1, 2)):
+                yield f'cbor.dec.seq {kind} {c} {hexs(head(mt, declared) + b"a" * present)}'
+                yield f'cbor.dec.seq {kind} u{c}u {hexs(head(0, 7) + head(mt, declared) + b"a" * present)}'
+    # tagged items (major type 6) are not part of the supported subset: every tag, incl. self-described CBOR 55799, is a wrong type
+    for tag in (0, 1, 2, 23, 24, 32, 55798, 55799, 55800, 2**32, 2**64 - 1):
+        for size in (None, 2, 4, 8):
+            if size is not None and tag >= 256 ** size: continue
+            th = head(6, tag, size)
+            for inner, c in ((head(0, 5), 'u'), (head(2, 2) + b'hi', 'b'), (head(3, 2) + b'hi', 't'), (head(4, 1) + head(0, 1), 'a'), (head(5, 0), 'm')):
+                for kind in ('bytes', 'buffer'):
+                    yield f'cbor.dec.seq {kind} {c} {hexs(th + inner)}'
+                yield f'{ {"u": "cbor.dec.uint", "b": "cbor.dec.bytes", "t": "cbor.dec.text", "a": "cbor.dec.arr", "m": "cbor.dec.map"}[c]} {hexs(th + inner)}'
+    for kind in ('bytes', 'buffer', 'plain', 'one', 'limited'):
         for c in 'ubtam':
             yield f'cbor.dec.seq {kind} {c} -'
             yield f'cbor.dec.seq {kind} {c}{c} {hexs(head(0, 5))}'
